@@ -37,7 +37,13 @@ def make(seed, length, rank, space, sym=False, away=None, types=None):
     d = rnd(seed, (length, rank, rank), away=away)
     if sym:
         d = 0.5 * (d + d.transpose(0, 2, 1))
-    return P.MatrixArray(length=length, rank=rank, data=d, space=getattr(P.Space, space), types=types)
+    # documented defaults (space=Space.Real, types=None) are exercised by leaving the arguments out
+    kw = {}
+    if space != 'Real':
+        kw['space'] = getattr(P.Space, space)
+    if types is not None:
+        kw['types'] = types
+    return P.MatrixArray(length=length, rank=rank, data=d, **kw)
 
 
 def operand(spec, length, rank):
@@ -257,7 +263,8 @@ class DotInvert(Sub):
         if spec.get('dtype', 'float') != 'float':
             M = (np.rint(3 * g) + np.eye(R)[None, :, :] * (3 * R + 1 + int(spec['dom']))).astype(spec['dtype'])
         MA = P.MatrixArray(length=L, rank=R, data=M.copy(), space=getattr(P.Space, spec['space']))
-        inv = MA.invert(inplace=spec['inv_inplace'])
+        # out of place is the documented default: written by leaving the argument out
+        inv = MA.invert(inplace=True) if spec['inv_inplace'] else MA.invert()
         if inv.data.shape != M.shape:
             out.fail(sig + 'invert-shape', 'invert changed the shape')
             return out
